@@ -243,6 +243,27 @@ void prop_union(const Case& cs) {
   cpc_sketch r = check_result(u, "final");
   // lossless compression of the union result
   check_roundtrip(r, seed, items, r.get_num_coupons(), "union result");
+  // the result is a sketch like any other: continuing the stream on it - directly and on its restored image - keeps the exact
+  // coupon set (nothing offered later is dropped, nothing is invented)
+  {
+    const uint32_t extra = 100 + static_cast<uint32_t>(vf::mix64(static_cast<uint64_t>(cs.get("perm", 1)) + 77) % 2500);
+    std::set<uint32_t> P;
+    for (const auto& p : pairs) P.insert(fold(p, lg_k));
+    auto bytes = r.serialize();
+    cpc_sketch direct(r), restored = cpc_sketch::deserialize(bytes.data(), bytes.size(), seed);
+    std::vector<vf::Item> all = items;
+    for (uint32_t i = 0; i < extra; ++i) {
+      vf::Item it{vf::T_I64, static_cast<uint64_t>(200000) + i};
+      vf::feed(direct, it); vf::feed(restored, it);
+      Pair p; if (ref_pair(it, seed, p)) P.insert(fold(p, lg_k));
+      all.push_back(it);
+    }
+    VF_CHECK(direct.get_num_coupons() == P.size(), "result-continued", "union result fed " << extra << " further items has " << direct.get_num_coupons() << " coupons, exact coupon set has " << P.size());
+    VF_CHECK(restored.get_num_coupons() == P.size(), "result-continued", "restored union result fed " << extra << " further items has " << restored.get_num_coupons() << " coupons, exact coupon set has " << P.size());
+    VF_CHECK(direct.validate() && restored.validate(), "result-continued", "validate() failed on the continued union result");
+    check_membership(direct, all, all.size() > 20000 ? 20000 : 0, 13, "continued union result");
+    vf::label("result-continued");
+  }
   // permuted order with opposite lvalue/rvalue, no intermediate results: identical outcome
   if (!steps.empty()) {
     vf::Rng rng(static_cast<uint64_t>(cs.get("perm", 1)) + 3);
